@@ -38,6 +38,7 @@ type nextItem struct {
 	fnd   []string
 	sum   string
 	clean bool
+	late  string // what the Validation handed out with this item says once the whole stream has been read, if that differs
 }
 
 func (n nextItem) String() string {
@@ -91,19 +92,33 @@ func readAllItems(o ropts, data []byte) []nextItem {
 	}
 	defer rd.Close()
 	var items []nextItem
+	// the Validation objects handed out, looked at AGAIN when reading is over: what a caller collected for a record must not
+	// change because the reader went on (a client that reads to the end and then inspects what it got)
+	var vals []*gowarc.Validation
+	finish := func() []nextItem {
+		for i := range items {
+			if i < len(vals) {
+				if now := showList(classifyAll(vals[i])); now != showList(items[i].fnd) {
+					items[i].late = now
+				}
+			}
+		}
+		return items
+	}
 	for i := 0; i < 200; i++ {
 		rec, off, val, err := rd.Next()
 		fnd := classifyAll(val)
+		vals = append(vals, val)
 		if err != nil {
 			items = append(items, nextItem{off: off, err: gowarc.VerifClassify(err), fnd: fnd})
 			if rec != nil {
 				_ = rec.Close()
 			}
-			return items
+			return finish()
 		}
 		if rec == nil {
 			items = append(items, nextItem{off: off, err: "nil-record"})
-			return items
+			return finish()
 		}
 		_, block := readAllBlock(rec)
 		bl := unhxOrEmpty(block)
@@ -112,7 +127,17 @@ func readAllItems(o ropts, data []byte) []nextItem {
 		_ = rec.Close()
 	}
 	items = append(items, nextItem{err: "endless"})
-	return items
+	return finish()
+}
+
+// lateChange reports the first item whose findings changed after it had been handed out
+func lateChange(items []nextItem) string {
+	for i, it := range items {
+		if it.late != "" {
+			return fmt.Sprintf("item=%d handed out with findings [%s], later reads [%s]", i, showList(it.fnd), it.late)
+		}
+	}
+	return ""
 }
 
 func joinItems(items []nextItem) string {
@@ -141,6 +166,9 @@ func kCuts(args []string) (string, string) {
 			viol = "VIOL " + sig + " " + sanitize(detail)
 		}
 	}
+	if d := lateChange(full); d != "" {
+		setViol("c06-findings-not-stable", "uncut file: "+d)
+	}
 	// the uncut file: n clean records at the boundaries, EOF at the end (the generator filters on this; a failure here is C01's business)
 	nrec := len(bounds) - 1
 	wellFormed := len(full) == nrec+1 && full[nrec].err == "eof"
@@ -152,6 +180,9 @@ func kCuts(args []string) (string, string) {
 	var outs []string
 	for k := from; k <= to && k <= len(data); k++ {
 		items := readAllItems(o, data[:k])
+		if d := lateChange(items); d != "" {
+			setViol("c06-findings-not-stable", fmt.Sprintf("cut=%d: %s", k, d))
+		}
 		outs = append(outs, joinItems(items))
 		if !wellFormed {
 			continue
